@@ -10,7 +10,7 @@ CHECKS["C02"] = {
     "technique": "bounded-exhaustive enumeration of a slot grammar on the real parser, ground truth by construction",
     "level_text": "Every sentence of the gen_http slot grammar (request line forms, Host forms, header styles, cookie shapes, Basic / Digest / Bearer credentials incl. Digest parameters hidden in other "
                   "parameters' quoted strings, urlencoded and multipart bodies incl. field names with quoted-string escapes, response status / reason / header styles / framings, interim 100 and 103) with at most 2 (quick) / 3 (thorough) non-default slots, under all 8 supported "
-                  "personalities, plus all pipelines of length <=3 over 10 representatives, is parsed by the real library and compared field by field "
+                  "personalities, plus all pipelines of length <=3 over 10 representatives, plus one field sent 2..4 times with every combination of value lengths 1..5 on either side, is parsed by the real library and compared field by field "
                   "with the structure the generator encoded. Exhaustive within the stated grammar and bound; not a proof for messages outside it.",
     "level_note": "Trusted: the generator (mc/gen.c) as the definition of 'what was sent'; fold joints accept SP or the raw LWS run; whole-stream delivery.",
     "design_ref": "DESIGN.md §6 C02",
